@@ -150,11 +150,11 @@ pub static C33: PropDef = PropDef {
     id: "C33",
     level: "model_checking",
     engine: "sweep",
-    rule: "every body of length <= 3 (thorough 4) over {X 0, PRAGMA p, PULSE, MOVE a 1, ADD a 1, MEASURE 0 ro, RX(a) 1, LABEL @inner} on a header with one definition of every kind x n in 0..4 (thorough 0..8) x counter reference cnt[0] / cnt[1] x fixed / placeholder start label; the wrapped program is executed by a small classical interpreter (states = (pc, memory), horizon 10000 steps) and its trace of non-control instructions is compared with body^n; n = 0 / n = 1 clauses; definitions preserved. non-trivial = case with n >= 2 and a non-empty body",
+    rule: "every body of length <= 3 (thorough 5) over {X 0, PRAGMA p, PULSE, MOVE a 1, ADD a 1, MEASURE 0 ro, RX(a) 1, LABEL @inner} on a header with one definition of every kind x n in 0..4 (thorough 0..10) x counter reference cnt[0] / cnt[1] x fixed / placeholder start label; the wrapped program is executed by a small classical interpreter (states = (pc, memory), horizon 10000 steps) and its trace of non-control instructions is compared with body^n; n = 0 / n = 1 clauses; definitions preserved. non-trivial = case with n >= 2 and a non-empty body",
     assumptions: &["interpreter mc/src/props/prog.rs interp(): integer MOVE/ADD/SUB, LABEL/JUMP/JUMP-WHEN/JUMP-UNLESS/HALT; everything else is logged as executed"],
     run: |ctx| {
-        let l = ctx.tier.pick(3, 4);
-        let nmax = ctx.tier.pick(4u32, 8);
+        let l = ctx.tier.pick(3, 5);
+        let nmax = ctx.tier.pick(4u32, 10);
         for len in 0..=l {
             sequences(C33_MENU.len(), len, |b| {
                 for iters in 0..=nmax {
@@ -476,8 +476,8 @@ pub static C34: PropDef = PropDef {
 
 const C35_FRAMES: &[&str] = &["DEFFRAME 0 \"a\":\n    A: 1\n", "DEFFRAME 1 \"a\":\n    A: 1\n", "DEFFRAME 0 1 \"c\":\n    A: 1\n"];
 const C35_HEAD: &str = "DEFWAVEFORM w:\n    1\nDEFWAVEFORM v:\n    1\nPRAGMA EXTERN f \"INTEGER\"\nPRAGMA EXTERN g \"INTEGER\"\nDECLARE ro INTEGER\nDEFGATE G AS PERMUTATION:\n    0, 1\nDEFCIRCUIT C:\n    X 0\n";
-const C35_CALS: &[&str] = &["", "DEFCAL X 0:\n    PULSE 0 \"a\" w\n    CALL f ro\n", "DEFCAL X q:\n    NONBLOCKING PULSE q \"a\" v\n    FENCE q\n", "DEFCAL X 0:\n    Y 0\nDEFCAL Y 0:\n    DELAY 0 1.0\n", "DEFCAL MEASURE 0 dest:\n    CAPTURE 0 \"a\" v dest\nDEFCAL X 1:\n    NOP\n"];
-const C35_BODY: &[&str] = &["X 0", "X 1", "PULSE 1 \"a\" w", "FENCE", "FENCE 1", "DELAY 0 1 1.0", "CALL g ro", "SET-PHASE 0 1 \"c\" 1.0", "CAPTURE 0 \"a\" v ro", "RESET 0", "NOP", "Z 0", "MEASURE 0 ro", "PULSE 0 \"a\" flat(duration: 1.0, iq: 1)"];
+const C35_CALS: &[&str] = &["", "DEFCAL X 0:\n    PULSE 0 \"a\" w\n    CALL f ro\n", "DEFCAL X q:\n    NONBLOCKING PULSE q \"a\" v\n    FENCE q\n", "DEFCAL X 0:\n    Y 0\nDEFCAL Y 0:\n    DELAY 0 1.0\n", "DEFCAL MEASURE 0 dest:\n    CAPTURE 0 \"a\" v dest\nDEFCAL X 1:\n    NOP\n", "DEFCAL X 1:\n    PULSE 0 \"a\" w\n"];
+const C35_BODY: &[&str] = &["X 0", "X 1", "RESET", "PULSE 1 \"a\" w", "FENCE", "FENCE 1", "DELAY 0 1 1.0", "CALL g ro", "SET-PHASE 0 1 \"c\" 1.0", "CAPTURE 0 \"a\" v ro", "RESET 0", "NOP", "Z 0", "MEASURE 0 ro", "PULSE 0 \"a\" flat(duration: 1.0, iq: 1)"];
 
 fn c35_check(src: &str) -> (bool, Vec<(String, String)>) {
     let r = catch(|| {
@@ -505,6 +505,16 @@ fn c35_check(src: &str) -> (bool, Vec<(String, String)>) {
             // frames *used* by the body, by the reference rules
             for f in ref_frames(&e, i).used {
                 used.insert(f);
+            }
+            // a bare RESET has no rule in the statement of C26 (the reference says nothing about it): the
+            // frames it uses are taken from the real handler asked about the *expanded* program, which is
+            // what "used by that body" means
+            if matches!(i, Instruction::Reset(Reset { qubit: None })) {
+                if let Some(m) = DefaultHandler.matching_frames(&e, i) {
+                    for f in m.used {
+                        used.insert(fid(f));
+                    }
+                }
             }
             match i {
                 Instruction::Pulse(pu) => {
@@ -581,10 +591,10 @@ pub static C35: PropDef = PropDef {
     id: "C35",
     level: "exploration",
     engine: "sweep",
-    rule: "programs = every subset of 3 frames (qubits 0, 1, 0+1) x 2 waveforms, 2 externs, declaration, DEFGATE, DEFCIRCUIT x 5 calibration sets (none, fixed, variable, nested, measure) x every body of 1-2 (thorough 3) instructions from a 14-item menu (calibrated and uncalibrated gates, pulses, fences, delay, CALL, frame update, capture, reset, measure): simplify() vs expand_calibrations() body, no calibrations, frames = frames used by that body (reference frame rules), waveforms invoked, externs called, other definitions unchanged, block schedules equal. non-trivial = program that simplifies",
+    rule: "programs = every subset of 3 frames (qubits 0, 1, 0+1) x 2 waveforms, 2 externs, declaration, DEFGATE, DEFCIRCUIT x 6 calibration sets (none, fixed, variable, nested, measure, one whose body acts on another qubit than its gate) x every body of 1-2 (thorough 4) instructions from a 15-item menu (calibrated and uncalibrated gates, pulses, fences, delay, CALL, frame update, capture, RESET with and without a qubit, measure): simplify() vs expand_calibrations() body, no calibrations, frames = frames used by that body (reference frame rules; for a bare RESET the real handler asked about the expanded program), waveforms invoked, externs called, other definitions unchanged, block schedules equal. non-trivial = program that simplifies",
     assumptions: &["frames used by an instruction = reference frame rules (ref_frames), checked against the code by C26"],
     run: |ctx| {
-        let l = ctx.tier.pick(2, 3);
+        let l = ctx.tier.pick(2, 4);
         for fmask in 0..8u32 {
             for cal in C35_CALS {
                 for len in 1..=l {
